@@ -2,7 +2,6 @@ package c04
 
 import (
 	"fmt"
-	"sort"
 
 	"github.com/welllog/golib/heapz"
 
@@ -10,94 +9,199 @@ import (
 )
 
 // Extra "popall-early-stop": the consumer of PopAll leaves the range loop after k elements
-// (iter.go, the `if !yield(...) { break }` branch, which the line protocol never takes: its
-// `popall` drains the heap). Go-only, no Lean model: the expectation is the property itself —
-// exactly the k first elements (in comparator order) have left, everything else is still
-// there, still a heap, and every handle still works. The same runs also cover what the line
-// protocol cannot say: Init with a comparator other than the one given to New.
+// (iter.go, the `if !yield(...) { break }` branch) and / or uses the heap INSIDE the loop body
+// (Peek, Push, Len). Go-only, no Lean model: the expectation is the property itself, stated by a
+// plain reference (a multiset of values / a set of live handles): every yielded element is a
+// minimum of what the heap held at that moment, everything else is still there, still a heap,
+// and every handle still works.
+//
+// Size-aware: an implementation may switch strategy at a size threshold (a bulk path for big
+// heaps), so the sizes run over 1..5, 63/64/65, 200, 1000 and random ones, for BOTH PopAll
+// forms (Slice and Heap), all four comparators, values with many ties; the loop is left after
+// k ∈ {0 (break in the first iteration: the first element is already consumed), 1, 2, n/2,
+// n-1, n, n+1 (never: full drain)} received elements.
+//
+// The same runs also cover what the line protocol cannot say: Init with a comparator other
+// than the one given to New.
 
 type earlyCase struct {
 	Type      string `json:"type"` // Heap | Slice
 	Cmp       string `json:"cmp"`
 	Build     string `json:"build"` // init | push
+	Body      string `json:"body"`  // plain | peek | push | len: what the loop body does besides receiving
 	Values    []int  `json:"values"`
-	StopAfter int    `json:"stop_after"`
-	Got       []int  `json:"yielded,omitempty"`
-	LenAfter  int    `json:"len_after"`
+	StopAfter int    `json:"stop_after"` // leave the loop once this many elements were received (0: in the first iteration)
+	// Pushes[i] >= 0: the i-th iteration (0-based) pushes that value (Body == "push")
+	Pushes   []int `json:"pushed_in_body,omitempty"`
+	Got      []int `json:"yielded,omitempty"`
+	LenAfter int   `json:"len_after"`
+}
+
+// sortedAdj: no element precedes its predecessor (equivalent to sortedBy for the strict weak
+// orders used here; linear, for the big sizes).
+func sortedAdj(v []int, cmp func(a, b int) bool) bool {
+	for i := 1; i < len(v); i++ {
+		if cmp(v[i], v[i-1]) {
+			return false
+		}
+	}
+	return true
+}
+
+func clipInts(v []int) string {
+	if len(v) <= 24 {
+		return fmt.Sprint(v)
+	}
+	return fmt.Sprintf("%v… (%d elements) …%v", v[:12], len(v), v[len(v)-6:])
+}
+
+// msRemove removes one occurrence of x from the multiset ref (order is irrelevant).
+func msRemove(ref []int, x int) ([]int, bool) {
+	for i, y := range ref {
+		if y == x {
+			ref[i] = ref[len(ref)-1]
+			return ref[:len(ref)-1], true
+		}
+	}
+	return ref, false
+}
+
+func msPrecedes(ref []int, x int, cmp func(a, b int) bool) (int, bool) {
+	for _, y := range ref {
+		if cmp(y, x) {
+			return y, true
+		}
+	}
+	return 0, false
+}
+
+func (ec *earlyCase) pushAt(i int) (int, bool) {
+	if ec.Body == "push" && i < len(ec.Pushes) && ec.Pushes[i] >= 0 {
+		return ec.Pushes[i], true
+	}
+	return 0, false
 }
 
 func earlyStopOne(ec *earlyCase, rmPick int) (key, desc string) {
+	if ec.Type == "Slice" {
+		return earlyStopSlice(ec, rmPick)
+	}
+	return earlyStopHeap(ec, rmPick)
+}
+
+func earlyStopSlice(ec *earlyCase, rmPick int) (key, desc string) {
 	cmp := cmpOf(ec.Cmp)
 	n := len(ec.Values)
-	wantK := ec.StopAfter
-	if wantK > n {
-		wantK = n
+	need := max(ec.StopAfter, 1) // iterations the consumer takes when the heap does not run dry
+	var s heapz.Slice[int]
+	if ec.Build == "init" {
+		s = heapz.FromSlice(append([]int{}, ec.Values...), cmp)
+	} else {
+		s = heapz.NewSlice[int](0, cmp)
+		for _, v := range ec.Values {
+			s.Push(v)
+		}
 	}
-	sorted := append([]int{}, ec.Values...)
-	sort.SliceStable(sorted, func(i, j int) bool { return cmp(sorted[i], sorted[j]) })
-	// checkYield: got = the wantK first of the sorted order, up to ties
-	checkYield := func(got []int, rest []int) (string, string) {
-		if len(got) != wantK {
-			return "count", fmt.Sprintf("the loop body ran %d times, expected %d", len(got), wantK)
+	ref := append([]int{}, ec.Values...) // reference: the multiset the heap holds
+	var got []int
+	peeked, havePeek := 0, false
+	iter := 0
+	for x := range s.PopAll() {
+		got = append(got, x)
+		if iter > n+len(ec.Pushes)+2 {
+			ec.Got = got
+			return "count", fmt.Sprintf("the loop body ran %d times on a heap of %d (+%d pushed)", iter+1, n, len(ec.Pushes))
 		}
-		if !sameMultiset(append(append([]int{}, got...), rest...), ec.Values) {
-			return "multiset", fmt.Sprintf("yielded %v + remaining %v is not the multiset pushed", got, rest)
+		var present bool
+		if ref, present = msRemove(ref, x); !present {
+			ec.Got = got
+			return "multiset", fmt.Sprintf("iteration %d yielded %d, which the heap does not hold (any more)", iter, x)
 		}
-		if !sortedBy(got, cmp) {
-			return "sorted", fmt.Sprintf("yielded %v is not in comparator order", got)
+		if y, bad := msPrecedes(ref, x, cmp); bad {
+			ec.Got = got
+			return "min", fmt.Sprintf("iteration %d yielded %d although the heap still holds %d, which precedes it", iter, x, y)
 		}
-		for _, x := range got {
-			for _, y := range rest {
-				if cmp(y, x) {
-					return "min", fmt.Sprintf("remaining %d precedes the yielded %d", y, x)
+		if havePeek && peeked != x {
+			ec.Got = got
+			return "peek", fmt.Sprintf("Peek() in the loop body returned %d, the next iteration yielded %d", peeked, x)
+		}
+		havePeek = false
+		switch ec.Body {
+		case "peek":
+			p, ok := s.Peek()
+			if ok != (len(ref) > 0) {
+				return "peek", fmt.Sprintf("iteration %d: Peek() = (%d,%v) with %d elements left", iter, p, ok, len(ref))
+			}
+			if ok {
+				if y, bad := msPrecedes(ref, p, cmp); bad {
+					return "peek", fmt.Sprintf("iteration %d: Peek() in the loop body = %d, but %d (still in the heap) precedes it", iter, p, y)
 				}
+				peeked, havePeek = p, true
 			}
-		}
-		return "", ""
-	}
-	if ec.Type == "Slice" {
-		var s heapz.Slice[int]
-		if ec.Build == "init" {
-			s = heapz.FromSlice(append([]int{}, ec.Values...), cmp)
-		} else {
-			s = heapz.NewSlice[int](0, cmp)
-			for _, v := range ec.Values {
+		case "len":
+			if s.Len() != len(ref) {
+				return "len-inside", fmt.Sprintf("iteration %d: Len() in the loop body = %d, the heap holds %d", iter, s.Len(), len(ref))
+			}
+		case "push":
+			if v, ok := ec.pushAt(iter); ok {
 				s.Push(v)
+				ref = append(ref, v)
 			}
 		}
-		var got []int
-		for x := range s.PopAll() {
-			got = append(got, x)
-			if len(got) == ec.StopAfter {
-				break
-			}
+		iter++
+		if len(got) >= ec.StopAfter {
+			break
 		}
-		ec.Got, ec.LenAfter = got, s.Len()
-		if s.Len() != n-wantK {
-			return "len", fmt.Sprintf("Len() = %d after leaving the loop at element %d of %d", s.Len(), ec.StopAfter, n)
+	}
+	ec.Got, ec.LenAfter = got, s.Len()
+	if len(got) < need && len(ref) > 0 {
+		return "count", fmt.Sprintf("the loop ended by itself after %d elements with %d left in the heap", len(got), len(ref))
+	}
+	if s.Len() != len(ref) {
+		return "len", fmt.Sprintf("Len() = %d after leaving the loop at element %d (heap of %d): %d must be left", s.Len(), len(got), n, len(ref))
+	}
+	rest := append([]int{}, s.Values...)
+	if !sameMultiset(rest, ref) {
+		return "multiset", fmt.Sprintf("yielded %s, remaining Values %s: not the multiset that was put in", clipInts(got), clipInts(rest))
+	}
+	if ec.Body != "push" && !sortedAdj(got, cmp) {
+		return "sorted", fmt.Sprintf("yielded %s is not in comparator order", clipInts(got))
+	}
+	if j, ok := heapOrdered(rest, cmp); !ok {
+		return "order", fmt.Sprintf("remaining Values %s: Values[%d]=%d precedes its parent Values[%d]=%d", clipInts(rest), j, rest[j], (j-1)/2, rest[(j-1)/2])
+	}
+	// the rest is still a working heap: some Pop calls, then a second PopAll
+	var tailv []int
+	for i := rmPick % 4; i > 0; i-- {
+		x, ok := s.Pop()
+		if ok != (len(tailv) < len(rest)) {
+			return "resume", fmt.Sprintf("Pop() after the early stop = (%d,%v) with %d elements left", x, ok, len(rest)-len(tailv))
 		}
-		rest := append([]int{}, s.Values...)
-		if k, d := checkYield(got, rest); k != "" {
-			return k, d
-		}
-		if j, ok := heapOrdered(rest, cmp); !ok {
-			return "order", fmt.Sprintf("remaining Values %v: child %d precedes its parent", rest, j)
-		}
-		// the rest is still a working heap
-		var tailv []int
-		for x := range s.PopAll() {
+		if ok {
 			tailv = append(tailv, x)
 		}
-		if !sameMultiset(tailv, rest) || !sortedBy(tailv, cmp) || s.Len() != 0 {
-			return "resume", fmt.Sprintf("a second PopAll yielded %v from %v", tailv, rest)
-		}
-		return "", ""
 	}
+	for x := range s.PopAll() {
+		tailv = append(tailv, x)
+		if len(tailv) > len(rest) {
+			break
+		}
+	}
+	if !sameMultiset(tailv, rest) || !sortedAdj(tailv, cmp) || s.Len() != 0 {
+		return "resume", fmt.Sprintf("Pop calls + a second PopAll yielded %s from %s", clipInts(tailv), clipInts(rest))
+	}
+	return "", ""
+}
+
+func earlyStopHeap(ec *earlyCase, rmPick int) (key, desc string) {
+	cmp := cmpOf(ec.Cmp)
+	n := len(ec.Values)
+	need := max(ec.StopAfter, 1)
 	h := heapz.New[int](0, cmp)
 	var el []*heapz.Element[int]
 	if ec.Build == "init" {
 		// the heap was made with the OPPOSITE comparator and holds two elements: Init replaces
-		// both the content and the comparator (the line protocol always re-uses one comparator)
+		// both the content and the comparator (the line protocol's `init` re-uses one comparator)
 		h = heapz.New[int](0, func(a, b int) bool { return cmp(b, a) })
 		old := []*heapz.Element[int]{h.Push(7000), h.Push(1)}
 		h.Init(append([]int{}, ec.Values...), cmp)
@@ -114,111 +218,274 @@ func earlyStopOne(ec *earlyCase, rmPick int) (key, desc string) {
 			el = append(el, h.Push(v))
 		}
 	}
+	live := map[*heapz.Element[int]]bool{} // reference: the handles the heap holds
+	for _, e := range el {
+		live[e] = true
+	}
+	if len(live) != n {
+		return "index", fmt.Sprintf("%d distinct handles for %d values", len(live), n)
+	}
+	precedes := func(x int) (*heapz.Element[int], bool) {
+		for e := range live {
+			if cmp(e.Value, x) {
+				return e, true
+			}
+		}
+		return nil, false
+	}
 	var got []int
+	var peeked *heapz.Element[int]
+	iter := 0
 	for x := range h.PopAll() {
 		got = append(got, x)
-		if len(got) == ec.StopAfter {
+		if iter > n+len(ec.Pushes)+2 {
+			ec.Got = got
+			return "count", fmt.Sprintf("the loop body ran %d times on a heap of %d (+%d pushed)", iter+1, n, len(ec.Pushes))
+		}
+		// which element has left? exactly one live handle now reports -1, and it carries x
+		var gone *heapz.Element[int]
+		for e := range live {
+			if e.Index() == -1 {
+				if gone != nil {
+					ec.Got = got
+					return "index", fmt.Sprintf("iteration %d: more than one handle was detached (values %d, %d)", iter, gone.Value, e.Value)
+				}
+				gone = e
+			}
+		}
+		if gone == nil {
+			ec.Got = got
+			return "index", fmt.Sprintf("iteration %d yielded %d but no handle of the heap reports Index() == -1", iter, x)
+		}
+		if gone.Value != x {
+			ec.Got = got
+			return "multiset", fmt.Sprintf("iteration %d yielded %d, the detached handle carries %d", iter, x, gone.Value)
+		}
+		delete(live, gone)
+		if y, bad := precedes(x); bad {
+			ec.Got = got
+			return "min", fmt.Sprintf("iteration %d yielded %d although the heap still holds %d, which precedes it", iter, x, y.Value)
+		}
+		if peeked != nil && peeked != gone {
+			ec.Got = got
+			return "peek", fmt.Sprintf("Peek() in the loop body returned the element with value %d, the next iteration popped another one (value %d)", peeked.Value, x)
+		}
+		peeked = nil
+		switch ec.Body {
+		case "peek":
+			p := h.Peek()
+			if (p != nil) != (len(live) > 0) {
+				return "peek", fmt.Sprintf("iteration %d: Peek() nil=%v with %d elements left", iter, p == nil, len(live))
+			}
+			if p != nil {
+				if !live[p] {
+					return "peek", fmt.Sprintf("iteration %d: Peek() in the loop body returned an element (value %d) that is not in the heap", iter, p.Value)
+				}
+				if y, bad := precedes(p.Value); bad {
+					return "peek", fmt.Sprintf("iteration %d: Peek() in the loop body = %d, but %d (still in the heap) precedes it", iter, p.Value, y.Value)
+				}
+				peeked = p
+			}
+		case "len":
+			if h.Len() != len(live) {
+				return "len-inside", fmt.Sprintf("iteration %d: Len() in the loop body = %d, the heap holds %d", iter, h.Len(), len(live))
+			}
+		case "push":
+			if v, ok := ec.pushAt(iter); ok {
+				e := h.Push(v)
+				if e == nil || live[e] || e.Value != v {
+					return "push", fmt.Sprintf("iteration %d: Push(%d) in the loop body did not return a fresh element", iter, v)
+				}
+				live[e] = true
+				el = append(el, e)
+			}
+		}
+		iter++
+		if len(got) >= ec.StopAfter {
 			break
 		}
 	}
 	ec.Got, ec.LenAfter = got, h.Len()
-	if h.Len() != n-wantK {
-		return "len", fmt.Sprintf("Len() = %d after leaving the loop at element %d of %d", h.Len(), ec.StopAfter, n)
+	if len(got) < need && len(live) > 0 {
+		return "count", fmt.Sprintf("the loop ended by itself after %d elements with %d left in the heap", len(got), len(live))
 	}
-	var rest []int
-	var liveEl []*heapz.Element[int]
-	seen := make([]bool, h.Len())
-	for _, e := range el {
-		ix := e.Index()
-		if ix == -1 {
-			continue
+	if h.Len() != len(live) {
+		return "len", fmt.Sprintf("Len() = %d after leaving the loop at element %d (heap of %d): %d must be left", h.Len(), len(got), n, len(live))
+	}
+	if ec.Body != "push" && !sortedAdj(got, cmp) {
+		return "sorted", fmt.Sprintf("yielded %s is not in comparator order", clipInts(got))
+	}
+	// indices: live handles form a bijection onto 0..Len-1, everything else reports -1
+	snapshot := func() ([]int, []*heapz.Element[int], string) {
+		byIdx := make([]int, h.Len())
+		at := make([]*heapz.Element[int], h.Len())
+		for _, e := range el {
+			ix := e.Index()
+			if !live[e] {
+				if ix != -1 {
+					return nil, nil, fmt.Sprintf("handle with value %d has left the heap but reports Index()=%d", e.Value, ix)
+				}
+				continue
+			}
+			if ix < 0 || ix >= h.Len() || at[ix] != nil {
+				return nil, nil, fmt.Sprintf("live handle with value %d reports Index()=%d (Len %d): not a bijection", e.Value, ix, h.Len())
+			}
+			at[ix], byIdx[ix] = e, e.Value
 		}
-		if ix < 0 || ix >= h.Len() || seen[ix] {
-			return "index", fmt.Sprintf("handle with value %d reports Index()=%d (Len %d)", e.Value, ix, h.Len())
-		}
-		seen[ix] = true
-		rest = append(rest, e.Value)
-		liveEl = append(liveEl, e)
+		return byIdx, at, ""
 	}
-	if len(rest) != h.Len() {
-		return "index", fmt.Sprintf("%d handles report an index, Len() = %d", len(rest), h.Len())
-	}
-	if k, d := checkYield(got, rest); k != "" {
-		return k, d
-	}
-	byIdx := make([]int, len(rest))
-	for i, e := range liveEl {
-		byIdx[e.Index()] = rest[i]
+	byIdx, at, bad := snapshot()
+	if bad != "" {
+		return "index", bad
 	}
 	if j, ok := heapOrdered(byIdx, cmp); !ok {
-		return "order", fmt.Sprintf("remaining heap %v: child %d precedes its parent", byIdx, j)
+		return "order", fmt.Sprintf("remaining heap %s: the element at index %d (%d) precedes its parent (%d)", clipInts(byIdx), j, byIdx[j], byIdx[(j-1)/2])
 	}
-	// the handles still work: remove one by handle, the popped ones are ignored, drain the rest
+	// the handles still work: the popped ones are ignored, remove one by handle, drain the rest
 	for _, e := range el {
-		if e.Index() == -1 {
+		if !live[e] {
 			h.Remove(e)
 			h.Fix(e)
 		}
 	}
-	if h.Len() != len(rest) {
-		return "stale", "Remove/Fix with the handle of a yielded element changed the heap"
+	if h.Len() != len(live) {
+		return "stale", "Remove/Fix with the handle of a yielded element changed Len()"
 	}
-	if len(liveEl) > 0 {
-		e := liveEl[rmPick%len(liveEl)]
+	if _, at2, bad := snapshot(); bad != "" {
+		return "stale", "after Remove/Fix with the handles of yielded elements: " + bad
+	} else {
+		for i := range at {
+			if at[i] != at2[i] {
+				return "stale", fmt.Sprintf("Remove/Fix with the handle of a yielded element moved the element at index %d", i)
+			}
+		}
+	}
+	rest := append([]int{}, byIdx...)
+	if len(at) > 0 {
+		e := at[rmPick%len(at)]
 		h.Remove(e)
-		rest, _ = removeOne(rest, e.Value)
+		delete(live, e)
+		rest, _ = msRemove(rest, e.Value)
 		if e.Index() != -1 || h.Len() != len(rest) {
 			return "resume", fmt.Sprintf("Remove by handle (value %d) after the early stop: Index()=%d Len()=%d", e.Value, e.Index(), h.Len())
 		}
+		if byIdx2, _, bad := snapshot(); bad != "" {
+			return "resume", "after Remove by handle: " + bad
+		} else if j, ok := heapOrdered(byIdx2, cmp); !ok {
+			return "resume", fmt.Sprintf("after Remove by handle: the element at index %d precedes its parent", j)
+		}
 	}
 	var tailv []int
+	for i := (rmPick / 4) % 4; i > 0; i-- {
+		e := h.Pop()
+		if (e != nil) != (len(tailv) < len(rest)) {
+			return "resume", fmt.Sprintf("Pop() after the early stop: nil=%v with %d elements left", e == nil, len(rest)-len(tailv))
+		}
+		if e != nil {
+			if !live[e] || e.Index() != -1 {
+				return "resume", fmt.Sprintf("Pop() after the early stop returned an element (value %d, Index %d) that is not a live handle / not detached", e.Value, e.Index())
+			}
+			delete(live, e)
+			tailv = append(tailv, e.Value)
+		}
+	}
 	for x := range h.PopAll() {
 		tailv = append(tailv, x)
+		if len(tailv) > len(rest) {
+			break
+		}
 	}
-	if !sameMultiset(tailv, rest) || !sortedBy(tailv, cmp) || h.Len() != 0 {
-		return "resume", fmt.Sprintf("a second PopAll yielded %v from %v", tailv, rest)
+	if !sameMultiset(tailv, rest) || !sortedAdj(tailv, cmp) || h.Len() != 0 {
+		return "resume", fmt.Sprintf("Pop calls + a second PopAll yielded %s from %s", clipInts(tailv), clipInts(rest))
+	}
+	for _, e := range el {
+		if e.Index() != -1 {
+			return "resume", fmt.Sprintf("the heap is empty, the handle with value %d reports Index()=%d", e.Value, e.Index())
+		}
 	}
 	return "", ""
 }
 
-func extraEarlyStop(ctx *core.Ctx) (int, string, []core.ExtraFailure) {
-	rounds := 4000
-	if ctx.Tier == "thorough" {
-		rounds = 200000
+var earlySizes = []int{1, 2, 3, 4, 5, 63, 64, 65, 200, 1000}
+var earlyBodies = []string{"plain", "peek", "push", "len"}
+var earlyCmps = []string{"key", "rkey", "lt", "gt"}
+
+// earlyStops: the places the consumer leaves the loop at, for a heap of n.
+func earlyStops(n int) []int {
+	ks := []int{0, 1, n / 2, n - 1, n, n + 1}
+	var r []int
+	for _, k := range ks {
+		dup := k < 0
+		for _, o := range r {
+			dup = dup || o == k
+		}
+		if !dup {
+			r = append(r, k)
+		}
 	}
-	rounds *= max(1, ctx.Escalate)
+	return r
+}
+
+// earlyFill: n values key*1000+tag; keys from six (many ties) / one key / identical values /
+// all keys distinct; the pushes of the loop body likewise.
+func earlyFill(r *core.Rand, ec *earlyCase, n int) {
+	regime := r.Pick(70, 8, 6, 16)
+	val := func(j int) int {
+		switch regime {
+		case 1:
+			return 3000 + j%1000
+		case 2:
+			return 3000
+		case 3:
+			return (j*7+3)%(n+16)*1000 + j%1000 // (distinct keys while j < n+16 and gcd(7,n+16)=1; ties otherwise)
+		}
+		return r.Range(0, 5)*1000 + j%1000
+	}
+	ec.Values = make([]int, n)
+	for j := range ec.Values {
+		ec.Values[j] = val(j)
+	}
+	if regime == 3 {
+		for j := n - 1; j > 0; j-- {
+			o := r.Intn(j + 1)
+			ec.Values[j], ec.Values[o] = ec.Values[o], ec.Values[j]
+		}
+	}
+	if ec.Body == "push" {
+		for i := 0; i < max(ec.StopAfter, 1); i++ {
+			v := -1
+			if r.Chance(50) {
+				v = val(n + i)
+			}
+			ec.Pushes = append(ec.Pushes, v)
+		}
+	}
+}
+
+func extraEarlyStop(ctx *core.Ctx) (int, string, []core.ExtraFailure) {
+	random := 2500
+	bigReps := 1 // repetitions of the (type × stop × body) grid for each size >= 63
+	if ctx.Tier == "thorough" {
+		random, bigReps = 150000, 12
+	}
+	random *= max(1, ctx.Escalate)
+	bigReps *= max(1, ctx.Escalate)
 	r := ctx.Rand.Fork()
 	var fails []core.ExtraFailure
 	seen := map[string]bool{}
-	early := 0
-	for i := 0; i < rounds; i++ {
-		ec := &earlyCase{Type: "Heap", Cmp: pickCmp(r), Build: "push"}
-		if r.Chance(40) {
-			ec.Type = "Slice"
-		}
-		if r.Bool() {
-			ec.Build = "init"
-		}
-		n := r.Range(0, 9)
-		if r.Chance(12) {
-			n = r.Range(10, 40)
-		}
-		oneKey := r.Chance(8)
-		for j := 0; j < n; j++ {
-			key := r.Range(0, 5)
-			if oneKey {
-				key = 3
-			}
-			ec.Values = append(ec.Values, key*1000+j)
-		}
-		ec.StopAfter = r.Range(1, n+1)
-		if r.Chance(25) {
-			ec.StopAfter = 1
-		}
+	runs, early, inBody := 0, 0, 0
+	perSize := map[int]int{}
+	one := func(ec *earlyCase) {
+		n := len(ec.Values)
+		runs++
+		perSize[n]++
 		if ec.StopAfter < n {
 			early++
 		}
-		rm := r.Intn(64)
+		if ec.Body != "plain" {
+			inBody++
+		}
+		rm := r.Intn(1 << 16)
 		var key, desc string
 		if o := core.Guard(func() string { key, desc = earlyStopOne(ec, rm); return "" }); o == "panic" {
 			key, desc = "panic", "panicked"
@@ -226,10 +493,76 @@ func extraEarlyStop(ctx *core.Ctx) (int, string, []core.ExtraFailure) {
 		if key != "" && !seen[key] {
 			seen[key] = true
 			fails = append(fails, core.ExtraFailure{
-				Failure: core.Failure{Key: "popall-earlystop-" + key, Desc: fmt.Sprintf("%s.PopAll() left after %d of %d elements: %s", ec.Type, ec.StopAfter, n, desc)},
+				Failure: core.Failure{Key: "popall-earlystop-" + key, Desc: fmt.Sprintf("%s.PopAll() over %d elements (cmp %s, built by %s), loop body %q, left after %d received: %s", ec.Type, n, ec.Cmp, ec.Build, ec.Body, ec.StopAfter, desc)},
 				Payload: ec,
 			})
 		}
 	}
-	return rounds, fmt.Sprintf("%d heaps/slices (0..40 elements), range over PopAll left after k elements (%d times before the end); yielded = the k first, rest intact, handles and a second PopAll work", rounds, early), fails
+	// the grid: every size × both forms × every stop × every body; all four comparators for
+	// the sizes up to 200, one (rotating) for 1000
+	rot := 0
+	for _, n := range earlySizes {
+		cmps := earlyCmps
+		reps := 1
+		if n >= 63 {
+			reps = bigReps
+		}
+		for rep := 0; rep < reps; rep++ {
+			for _, typ := range []string{"Slice", "Heap"} {
+				for _, k := range earlyStops(n) {
+					for _, body := range earlyBodies {
+						cs := cmps
+						if n >= 1000 {
+							cs = []string{earlyCmps[rot%4]}
+							rot++
+						}
+						for _, cn := range cs {
+							ec := &earlyCase{Type: typ, Cmp: cn, Build: "push", Body: body, StopAfter: k}
+							if r.Bool() {
+								ec.Build = "init"
+							}
+							earlyFill(r, ec, n)
+							one(ec)
+						}
+					}
+				}
+			}
+		}
+	}
+	grid := runs
+	// random sizes
+	for i := 0; i < random; i++ {
+		ec := &earlyCase{Type: "Heap", Cmp: pickCmp(r), Build: "push", Body: earlyBodies[r.Pick(40, 20, 25, 15)]}
+		if r.Chance(45) {
+			ec.Type = "Slice"
+		}
+		if r.Bool() {
+			ec.Build = "init"
+		}
+		n := r.Range(0, 9)
+		switch r.Pick(80, 12, 6, 2) {
+		case 1:
+			n = r.Range(10, 40)
+		case 2:
+			n = r.Range(41, 140)
+		case 3:
+			n = r.Range(141, 400)
+		}
+		ec.StopAfter = r.Range(0, n+1)
+		if r.Chance(25) {
+			ec.StopAfter = r.Range(0, 1)
+		}
+		earlyFill(r, ec, n)
+		one(ec)
+	}
+	big := 0
+	for n, c := range perSize {
+		if n >= 64 {
+			big += c
+		}
+	}
+	note := fmt.Sprintf("%d runs of `for v := range PopAll()` on Slice and Heap: %d on the grid sizes %v × stops {0,1,n/2,n-1,n,n+1} × loop bodies %v × comparators (per size: 63:%d 64:%d 65:%d 200:%d 1000:%d), %d random sizes 0..400; %d runs with >= 64 elements, %d left the loop before the end, %d used the heap inside the loop body; "+
+		"every yielded element is a minimum of the reference multiset at that moment, Peek in the body = the next element, rest intact and heap-ordered, handle indices a bijection, stale handles ignored, Pop calls + a second PopAll yield the rest sorted",
+		runs, grid, earlySizes, earlyBodies, perSize[63], perSize[64], perSize[65], perSize[200], perSize[1000], random, big, early, inBody)
+	return runs, note, fails
 }
